@@ -7,6 +7,8 @@
 //---------------------------------------------------------------------------//
 #pragma once
 
+#include <atomic>
+
 #include "corecel/Macros.hh"
 
 namespace celeritas
@@ -52,7 +54,9 @@ class ScopedMpiInit
 
   private:
     bool do_finalize_{false};
-    static Status status_;
+    // Atomic: lazily updated by status(), which the default loggers and
+    // communicators may call for the first time from different threads
+    static std::atomic<Status> status_;
 };
 
 //---------------------------------------------------------------------------//
